@@ -5,7 +5,7 @@ mod verif_c15 {
     use super::*;
     use rio_api::model::{NamedNode, Quad, Subject, Term as RioTerm, Triple};
     use rio_api::model::{GeneralizedQuad, GeneralizedTerm};
-    use sophia_api::source::Source;
+    use sophia_api::source::{Source, StreamError, StreamResult};
 
     #[derive(Debug, Clone, Copy, PartialEq, Eq)]
     pub struct PErr(pub u8);
@@ -96,10 +96,10 @@ mod verif_c15 {
     }
 
     /// shared checker: `seen` = ids of the statements the consumer saw, in order
-    fn verdict(end: bool, n_items: u8, fail: Option<u8>, sink_fail_at: u8, sink_err: u8, steps: u8, seen: [u8; 2], n_seen: u8,
+    fn verdict(end: bool, n_items: u8, fail: Option<u8>, sink_fail_at: u8, sink_err: u8, steps: u8, seen: [u8; 2], n_seen: u8, calls: u8,
                r: StreamResult<bool, PErr, SErr>) {
         if end {
-            assert!(steps == 0 && n_seen == 0);
+            assert!(steps == 0 && n_seen == 0 && calls == 0);
             assert!(matches!(r, Ok(false)));
             return;
         }
@@ -107,6 +107,8 @@ mod verif_c15 {
         // the consumer fails on its sink_fail_at-th item if it gets that far
         let delivered = if sink_fail_at < n_items { sink_fail_at } else { n_items };
         assert!(n_seen == delivered);
+        // nothing is handed to the consumer after it has failed
+        assert!(calls == delivered + if sink_fail_at < n_items { 1 } else { 0 });
         if delivered >= 1 { assert!(seen[0] == 0); }
         if delivered >= 2 { assert!(seen[1] == 1); }
         if sink_fail_at < n_items {
@@ -133,8 +135,10 @@ mod verif_c15 {
         let sink_err: u8 = kani::any();
         let mut seen = [9u8; 2];
         let mut n_seen = 0u8;
+        let mut calls = 0u8;
         let mut src = StrictRioTripleSource(stub);
         let r = src.try_for_some_item(|t| {
+            calls += 1;
             if n_seen == sink_fail_at {
                 return Err(SErr(sink_err));
             }
@@ -142,7 +146,7 @@ mod verif_c15 {
             n_seen += 1;
             Ok(())
         });
-        verdict(end, n_items, fail, sink_fail_at, sink_err, src.0.steps, seen, n_seen, r);
+        verdict(end, n_items, fail, sink_fail_at, sink_err, src.0.steps, seen, n_seen, calls, r);
     }
 
     #[kani::proof]
@@ -154,8 +158,10 @@ mod verif_c15 {
         let sink_err: u8 = kani::any();
         let mut seen = [9u8; 2];
         let mut n_seen = 0u8;
+        let mut calls = 0u8;
         let mut src = StrictRioQuadSource(stub);
         let r = src.try_for_some_item(|t| {
+            calls += 1;
             if n_seen == sink_fail_at {
                 return Err(SErr(sink_err));
             }
@@ -163,7 +169,7 @@ mod verif_c15 {
             n_seen += 1;
             Ok(())
         });
-        verdict(end, n_items, fail, sink_fail_at, sink_err, src.0.steps, seen, n_seen, r);
+        verdict(end, n_items, fail, sink_fail_at, sink_err, src.0.steps, seen, n_seen, calls, r);
     }
 
     #[kani::proof]
@@ -175,8 +181,10 @@ mod verif_c15 {
         let sink_err: u8 = kani::any();
         let mut seen = [9u8; 2];
         let mut n_seen = 0u8;
+        let mut calls = 0u8;
         let mut src = GeneralizedRioSource(stub);
         let r = src.try_for_some_item(|t| {
+            calls += 1;
             if n_seen == sink_fail_at {
                 return Err(SErr(sink_err));
             }
@@ -184,6 +192,6 @@ mod verif_c15 {
             n_seen += 1;
             Ok(())
         });
-        verdict(end, n_items, fail, sink_fail_at, sink_err, src.0.steps, seen, n_seen, r);
+        verdict(end, n_items, fail, sink_fail_at, sink_err, src.0.steps, seen, n_seen, calls, r);
     }
 }
